@@ -525,6 +525,11 @@ COMPLEX_INPUT_OK = {"AVOLinearModelling", "CausalIntegration", "Convolve1D", "Co
                     "Sum", "Transpose", "Zero", "Compound"}
 
 
+# families that (on the unchanged tree) allocate their output with the INPUT's dtype and therefore truncate integer-dtype
+# inputs: known finding C02-int-input; integer-dtype probes are not generated for them
+INT_INPUT_BAD = {"NonStationaryConvolve1D", "Seislet", "ChirpRadon2D"}
+
+
 # ------------------------------------------------------------------ grids
 def build(family, params):
     return F[family](**params)
